@@ -16,9 +16,9 @@ var Plans = map[string]models.UserPlan{
 		ShardBackupFrequency: 3600, ShardBackupCount: 1},
 }
 
-var UserPlan = map[string]string{"alice": "BASIC", "bob": "BASIC", "dave": "BASIC", "tim": "TINY", "mallory": "BASIC"}
+var UserPlan = map[string]string{"alice": "BASIC", "bob": "BASIC", "dave": "BASIC", "tim": "TINY", "mallory": "BASIC", "pat": "TINY"}
 
-var Users = []string{"alice", "bob", "dave", "tim"}
+var Users = []string{"alice", "bob", "dave", "tim", "pat"}
 
 // Col is one reference collection.
 type Col struct {
@@ -27,6 +27,9 @@ type Col struct {
 	Create   *N   // creation body
 	Points   []*N // seeded points (v2 shape, or v1 shape for V1 collections)
 	HasNum   bool // has an integer index "num" (extra enumeration read in the digest)
+	// CreatePlan: the plan the owner had when the collection was created and seeded, if it differs from the plan
+	// the owner's requests carry now (a downgrade: the limits of the CURRENT plan apply)
+	CreatePlan string
 }
 
 func seedID(col byte, i int) string {
@@ -143,6 +146,10 @@ func Reference() []*Col {
 		sv.Points = append(sv.Points, Obj("_id", Str(seedID('s', i)), "note", Str(fmt.Sprintf("n%d", i))))
 	}
 	w = append(w, sv)
+	// pat was on BASIC when the collection was created and is on TINY now
+	pv := v1("pat", 2, 'p')
+	pv.CreatePlan = "BASIC"
+	w = append(w, pv)
 	t := &Col{User: "tim", Id: "tiny", Create: Obj("id", Str("tiny"), "indexSchema",
 		Obj("vec", flat(2, "euclidean"), "str", Obj("type", Str("string"), "string", Obj("caseSensitive", Bool(false)))))}
 	for i := 0; i < 3; i++ {
@@ -166,6 +173,8 @@ func colTag(user, id string) byte {
 		return 'b'
 	case "dave/novec":
 		return 'n'
+	case "pat/v1col":
+		return 'p'
 	case "dave/stray":
 		return 's'
 	case "dave/flatvec":
